@@ -459,6 +459,9 @@ func (s *indexKVStore) FindValuesByLike(bucketID uint32, like string, ids []uint
 	switch {
 	case like == "":
 		return nil, nil
+	// only *, matches all values
+	case like == "*":
+		return s.findValuesByLike(bucketID, nil, nil, bytes.Contains, ids)
 	// only ends with *
 	case !hashPrefix && hasSuffix:
 		prefix := likeSlice[:len(likeSlice)-1]
